@@ -74,7 +74,11 @@ def add(sx, a, b, sub=False):
     wa = width(a)
     lb = literal(b)
     if lb is not None:
-        sx.domain(representable(k, wa, lb))
+        if k is not Unsigned:
+            sx.domain(representable(k, wa, lb))
+        # Unsigned +/- ANY integer is defined: the arithmetic wraps modulo 2**width (Unsigned[4](3) + (-1) == 2,
+        # Unsigned[4](7) + 300 == 3; tests/not_evaluated uses negative integers), so the generated logic has to produce
+        # that value for negative and for oversized integers too
         w = wa
         vb = lb
     else:
@@ -99,8 +103,8 @@ def mul(sx, a, b):
     wa = width(a)
     lb = literal(b)
     if lb is not None:
-        if k is Unsigned:
-            sx.domain(lb >= 0)  # numeric_std: UNSIGNED * NATURAL -- a negative integer is a bound error, no value to compare with
+        # (a negative integer with an Unsigned operand is "not representable" too: the fold multiplies by the integer
+        # modulo 2**width, and the emitted text must not hand numeric_std a negative NATURAL)
         if not sx.branch(representable(k, wa, lb)):
             # numeric_std converts the integer to the width of the VECTOR operand (to_unsigned / to_signed(lit, L'length)):
             # the emitted `(a) * (17)` multiplies by the truncated literal.  A fold may refuse such a literal, but if it
